@@ -254,7 +254,7 @@ def rule_decimal_year(ck):
     # leap rule on the date's own year
     leaps = calls_in(P, f, 'calendar.isleap')
     o = ck.ob('C15-D4.leap', f, leaps[0] if leaps else 'calendar.isleap', leaps[0] if leaps else f.node)
-    if not leaps or any(u(c.args[0]) != '%s.year' % d for c in leaps):
+    if not leaps or any(u(ex.expand(c.args[0])) != '%s.year' % d for c in leaps):
         o.fail('the length of the year is not decided by calendar.isleap(%s.year)' % d)
     else:
         o.ok()
